@@ -74,6 +74,20 @@ func (t *T) IsConst(lit string) bool { return t != nil && t.Op == "const" && t.N
 
 func (t *T) IsNil() bool { return t != nil && t.Op == "const" && t.Name == "nil" }
 
+// IsEmptyList: a list that is certainly empty when created: []T{} or make([]T, 0[, cap]).
+func (t *T) IsEmptyList() bool {
+	if t == nil {
+		return false
+	}
+	if t.Op == "lit" && len(t.Args) == 0 {
+		return true
+	}
+	if t.Op == "fresh" && t.Name == "slice" && len(t.Args) == 1 && t.Args[0].Op == "const" && t.Args[0].Name == "0" {
+		return true
+	}
+	return false
+}
+
 func (t *T) IsParam(name string) bool { return t != nil && t.Op == "param" && t.Name == name }
 
 // StrConst returns the string value if t is a string constant.
